@@ -458,6 +458,13 @@ func init() {
 			safely(r, "ruleMergeRender", func() { ruleMergeRender(w, r, v2) })
 			safely(r, "rulePathFresh", func() { rulePathFresh(w, r, v2, "v2") })
 			safely(r, "ruleDeleteVoid", func() { ruleDeleteVoid(w, r, newPatchFamily(w, v2, "v2")) })
+			{
+				// RenderMerge builds the document it renders by patching the empty document with the
+				// merge hunks: a hunk the object patch drops or does not hand on is missing from the rendering
+				pf := newPatchFamily(w, v2, "v2")
+				safely(r, "ruleDescend", func() { ruleDescend(w, r, pf) })
+				safely(r, "ruleNotIgnored", func() { ruleNotIgnored(w, r, pf, listModePatch) })
+			}
 			safely(r, "ruleWholeObject", func() { ruleWholeObject(w, r, v2, "v2", "Add") })
 			{
 				nt := newNodeTypes(w, v2, "v2")
@@ -481,6 +488,8 @@ func init() {
 			v2 := w.Pkg(pathV2)
 			safely(r, "ruleDiffReaders", func() { ruleDiffReaders(w, r, v2, "v2", "Merge") })
 			safely(r, "ruleMergeRead", func() { ruleMergeRead(w, r, v2) })
+			safely(r, "ruleMergeRoot", func() { ruleMergeRoot(w, r, v2, "v2") })
+			safely(r, "ruleMergeKeep", func() { ruleMergeKeep(w, r, newPatchFamily(w, v2, "v2")) })
 			pf := newPatchFamily(w, v2, "v2")
 			safely(r, "ruleFWD", func() { ruleFWD(w, r, pf, []string{"newValues", "strategy", "pathAhead"}) })
 			safely(r, "ruleChildResult", func() { ruleChildResult(w, r, pf) })
@@ -538,6 +547,8 @@ func init() {
 			safely(r, "ruleDiffReaders", func() { ruleDiffReaders(w, r, lib, "lib", "Diff") })
 			safely(r, "ruleNoSharedScratch", func() { ruleNoSharedScratch(w, r, lib, "lib") })
 			safely(r, "ruleEqSize", func() { ruleEqSize(w, r, newNodeTypes(w, lib, "lib")) })
+			// v1 digests carry no type tags at all: an ordered Equals that decides by digest calls [[]] and [{}] equal while the positional diff reports the difference
+			safely(r, "ruleHashEq", func() { ruleHashEq(w, r, newNodeTypes(w, lib, "lib")) })
 			// the v1 library as reached through the top-level binary with -v2=false: -p prints the patched document
 			r.Only(func(o Ob) bool { return o.Rule == "R-CLI/R" && strings.HasPrefix(o.Key, "top.") }, func(sub *Report) { safely(sub, "runCLI", func() { runCLI(w, sub, "plumbing") }) })
 			safely(r, "ruleScanErr", func() { ruleScanErr(w, r, lib, "lib") })
